@@ -6,6 +6,8 @@ import (
 	"strings"
 	"time"
 
+	"github.com/bool64/cache"
+
 	"verif/vclock"
 	"verif/vsched"
 )
@@ -90,7 +92,8 @@ func c05FT(cfg FCfg) time.Duration {
 }
 
 func c05Alphabet(ft int) []string {
-	return []string{"Get(ok)", "Get(fail)", "Advance(1s)", "Advance(FT*0.95-16ns)", "Advance(FT*1.05+1ns)", "ExpireAll(backend)", "Get(fail, caller context already cancelled)"}
+	return []string{"Get(ok)", "Get(fail)", "Advance(1s)", "Advance(FT*0.95-16ns)", "Advance(FT*1.05+1ns)", "ExpireAll(backend)", "Get(fail, caller context already cancelled)",
+		"Get(fail, caller context carries TTL 1s)", "Get(ok, caller context carries TTL 1h)"}
 }
 
 func c05Burst(cfg FCfg, env *Env) CellResult {
@@ -145,11 +148,13 @@ func countGets(cfg FCfg) int {
 }
 
 type c05Ev struct {
-	op     string
-	at     time.Time
-	built  bool
-	failed bool
-	res    string
+	op        string
+	at        time.Time
+	built     bool
+	failed    bool
+	res       string
+	hourTTL   bool // a Get whose caller context carries a TTL of one hour
+	expireAll bool // not a Get: the backend's entries were expired
 }
 
 // c05Window enumerates all operation sequences of the given length that start with ops[first].
@@ -179,13 +184,21 @@ func c05Window(cfg FCfg, env *Env) CellResult {
 
 			for _, o := range seq {
 				switch o {
-				case 0, 1, 6:
+				case 0, 1, 6, 7, 8:
 					h.cfg.Script = "o"
-					if o != 0 {
+					if o != 0 && o != 8 {
 						h.cfg.Script = "f"
 					}
 
 					gctx := context.Background()
+
+					// the TTL a caller asks for governs the value it gets built, not how long a failure is remembered
+					switch o {
+					case 7:
+						gctx = cache.WithTTL(gctx, time.Second, false)
+					case 8:
+						gctx = cache.WithTTL(gctx, time.Hour, false)
+					}
 
 					if o == 6 {
 						// the statement's "after a builder failure" does not depend on why the caller stopped caring
@@ -200,7 +213,7 @@ func c05Window(cfg FCfg, env *Env) CellResult {
 					t, isNil, _, err := h.front.Get(gctx, key, h.builder(0))
 					vsched.Join()
 
-					e := c05Ev{op: ops[o], at: vclock.NowQuiet(), built: h.nbuild[0] > nb, failed: o != 0 && h.nbuild[0] > nb}
+					e := c05Ev{op: ops[o], at: vclock.NowQuiet(), built: h.nbuild[0] > nb, failed: o != 0 && o != 8 && h.nbuild[0] > nb, hourTTL: o == 8}
 
 					switch {
 					case err != nil:
@@ -224,6 +237,7 @@ func c05Window(cfg FCfg, env *Env) CellResult {
 					}
 				case 5:
 					h.front.ExpireAll()
+					evs = append(evs, c05Ev{op: ops[o], at: vclock.NowQuiet(), expireAll: true})
 				}
 
 				vclock.Advance(time.Nanosecond)
@@ -249,7 +263,29 @@ func c05Window(cfg FCfg, env *Env) CellResult {
 		// noValue: nothing has ever been stored for the key, so neither a stale nor a refreshed copy can be served
 		noValue := cfg.Init[0] == 'A'
 
+		// a value built under a caller TTL of one hour stays fresh for that hour (unless everything is expired by hand):
+		// no builder invocation in between, whatever the update and failure TTLs are
+		var freshUntil time.Time
+
 		for _, e := range evs {
+			if e.expireAll {
+				freshUntil = time.Time{}
+				continue
+			}
+
+			if e.built && e.at.Before(freshUntil) {
+				viol = append(viol, Violation{Signature: fmt.Sprintf("C05 %s rebuild-while-fresh", front),
+					Detail: fmt.Sprintf("builder invoked at %v although the value built under a caller TTL of 1h is fresh until %v", e.at.Sub(vclock.Epoch), freshUntil.Sub(vclock.Epoch))})
+			}
+
+			if e.built && !e.failed {
+				freshUntil = time.Time{}
+
+				if e.hourTTL {
+					freshUntil = e.at.Add(time.Hour - time.Second)
+				}
+			}
+
 			if hasFail && ft > 0 && e.built && e.at.Sub(lastFail) < lower {
 				viol = append(viol, Violation{Signature: fmt.Sprintf("C05 %s early-rebuild-after-failure", front),
 					Detail: fmt.Sprintf("builder invoked %v after a failure, FailedUpdateTTL=%v allows it only after %v", e.at.Sub(lastFail), ft, lower)})
@@ -344,11 +380,11 @@ func init() {
 		ID: "C05", Title: "Build economy: SyncRead single-flight and cached failures suppress rebuilds",
 		Cells: c05Cells, Run: c05Run,
 		Rule: "(a,c) SyncRead bursts: 2-3 threads x 1-2 Gets on one key in state {absent, stale, too stale, fresh}, builder ok / failing, SU x FH x MS x 3 front-ends, all schedules within the bound: exactly one (successful / failing) build per burst; " +
-			"(b) all sequences of <=4 (quick) / <=5 (thorough) operations over {Get(ok), Get(fail), Get(fail) under an already cancelled caller context, Advance 1s, Advance FT*0.95-1ns, Advance FT*1.05+1ns, ExpireAll(backend)} for FailedUpdateTTL {20s, 5s, -1} with the jitter answer at both extremes and the middle: " +
+			"(b) all sequences of <=4 (quick) / <=5 (thorough) operations over {Get(ok), Get(fail), Get(fail) under an already cancelled caller context, Get(fail) under a caller TTL of 1s, Get(ok) under a caller TTL of 1h, Advance 1s, Advance FT*0.95-1ns, Advance FT*1.05+1ns, ExpireAll(backend)} for FailedUpdateTTL {20s, 5s, -1} with the jitter answer at both extremes and the middle: " +
 			"no builder entry before t_fail + FT*(1-J/2), same error inside the window, rebuild on every Get with FT=-1",
 		Assumptions: []string{
 			"a burst happens at one virtual instant, so the built result stays fresh for its whole duration",
-			"contexts carrying a TTL or SkipRead are outside the statement's quantifier and are not used here; cancelled caller contexts are (bursts and window sequences)",
+			"contexts carrying SkipRead are outside the statement's quantifier and are not used here; cancelled caller contexts and caller TTLs are (window sequences: a caller TTL neither shortens the failure window nor the freshness of the value built under it)",
 			"quick: preemption bound 2; thorough: unbounded with happens-before caching (safety cap 5M executions per cell, reported if hit)",
 		},
 	})
